@@ -3,6 +3,7 @@ package main
 // Goroutines as coroutines (one runs at a time), channels, select, mutexes.
 
 import (
+	"strings"
 	"fmt"
 	"go/token"
 	"go/types"
@@ -573,14 +574,19 @@ type lockEdge struct {
 	Role, Held, HeldMode, Want, WantMode string
 }
 
-// lockCycles: two roles of different groups acquiring two mutexes in opposite order where each
-// wanted mode conflicts with the other's held mode (a write on either side).
+// lockCycles: two roles acquiring two mutexes in opposite order where each wanted mode conflicts with the
+// other's held mode (a write on either side).  The two roles belong to different groups, or to one group
+// of callers that run concurrently with themselves (two Get readers, two Flush callers: any group that is
+// not a session - a session's handlers run one after the other).
 func lockCycles(edges []*lockEdge) []string {
 	var out []string
 	seen := map[string]bool{}
 	for _, a := range edges {
 		for _, b := range edges {
-			if roleGroup(a.Role) == roleGroup(b.Role) || a.Held != b.Want || a.Want != b.Held {
+			if a == b || a.Held != b.Want || a.Want != b.Held {
+				continue
+			}
+			if roleGroup(a.Role) == roleGroup(b.Role) && strings.HasPrefix(a.Role, "session-") {
 				continue
 			}
 			conflict := func(want, held string) bool { return want == "W" || held == "W" }
